@@ -458,47 +458,7 @@ func runC30(p *core.Prog, r *core.Report) {
 	}
 	// ---- R7 the whole delegation chain is authenticated
 	r7 := r.Rule("C30.R7", "AuthenticateTokenV2 returns nil only if the token has no origin or the SAME check (recursion) passed for its origin: every link of a delegation chain down to the root is signature- and issuer-checked", 2)
-	nInst := 0
-	for _, fn := range p.FuncsIn("internal/crypto") {
-		name := core.FuncName(fn)
-		if name != "internal/crypto.AuthenticateTokenV2" && !strings.HasPrefix(name, "internal/crypto.AuthenticateTokenV2[") {
-			continue
-		}
-		if fn.Blocks == nil || fn.Parent() != nil {
-			continue
-		}
-		nInst++
-		isOrigin := func(v ssa.Value) bool {
-			c, ok := v.(*ssa.Call)
-			if !ok {
-				return false
-			}
-			if c.Call.IsInvoke() {
-				return c.Call.Method.Name() == "Origin"
-			}
-			cal := c.Call.StaticCallee()
-			return cal != nil && cal.Name() == "Origin"
-		}
-		gs := []core.Guard{
-			{Name: "no-origin", Pure: true, Comps: []core.Comp{{Result: -1, Kind: core.IsNil}}, Value: func(_ *ssa.Function, v ssa.Value) bool { return isOrigin(v) }},
-			{Name: "origin-authenticated-by-the-same-check", Comps: []core.Comp{{Result: -1, Kind: core.ErrNil}}, Match: func(s core.Site) bool {
-				cal := core.StaticCallee(s.Call)
-				if cal == nil {
-					return false
-				}
-				cn := core.FuncName(cal)
-				if cn != "internal/crypto.AuthenticateTokenV2" && !strings.HasPrefix(cn, "internal/crypto.AuthenticateTokenV2[") {
-					return false
-				}
-				return len(s.Call.Common().Args) > 0 && isOrigin(core.Unwrap(s.Call.Common().Args[0]))
-			}},
-		}
-		core.CheckSuccessFn(p, r7, fn, core.SuccessRule{ResultIdx: -1, MinReturns: 1, Guards: gs,
-			Derived: []core.Derived{{Name: "chain-authenticated-to-the-root", Alts: [][]string{{"no-origin"}, {"origin-authenticated-by-the-same-check"}}}}, Need: []string{"chain-authenticated-to-the-root"}})
-	}
-	if nInst == 0 {
-		r.Fatalf("C30.R7: no instantiation of AuthenticateTokenV2 found")
-	}
+	delegationChainAuthenticated(p, r, r7)
 	// ---- R5 purge wiring
 	r5 := r.Rule("C30.R5", "the epoch-based token-check cache (bearer tokens: their epoch checks are part of the cached verdict) is purged from the node's new-epoch handler", 1)
 	for _, sink := range []string{aclV2 + ".ResetTokenCheckCache"} {
@@ -601,5 +561,50 @@ func incompleteHeadersOnlyWhereRechecked(p *core.Prog, r *core.Report, h *core.R
 	}
 	if n == 0 {
 		h.Check(true, core.FuncName(fn)+"#incomplete", p.Pos(fn.Pos()), "headers are never reported incomplete", "")
+	}
+}
+
+// delegationChainAuthenticated: shared by C30.R7 and C37.R4.
+func delegationChainAuthenticated(p *core.Prog, r *core.Report, r7 *core.RuleH) {
+	nInst := 0
+	for _, fn := range p.FuncsIn("internal/crypto") {
+		name := core.FuncName(fn)
+		if name != "internal/crypto.AuthenticateTokenV2" && !strings.HasPrefix(name, "internal/crypto.AuthenticateTokenV2[") {
+			continue
+		}
+		if fn.Blocks == nil || fn.Parent() != nil {
+			continue
+		}
+		nInst++
+		isOrigin := func(v ssa.Value) bool {
+			c, ok := v.(*ssa.Call)
+			if !ok {
+				return false
+			}
+			if c.Call.IsInvoke() {
+				return c.Call.Method.Name() == "Origin"
+			}
+			cal := c.Call.StaticCallee()
+			return cal != nil && cal.Name() == "Origin"
+		}
+		gs := []core.Guard{
+			{Name: "no-origin", Pure: true, Comps: []core.Comp{{Result: -1, Kind: core.IsNil}}, Value: func(_ *ssa.Function, v ssa.Value) bool { return isOrigin(v) }},
+			{Name: "origin-authenticated-by-the-same-check", Comps: []core.Comp{{Result: -1, Kind: core.ErrNil}}, Match: func(s core.Site) bool {
+				cal := core.StaticCallee(s.Call)
+				if cal == nil {
+					return false
+				}
+				cn := core.FuncName(cal)
+				if cn != "internal/crypto.AuthenticateTokenV2" && !strings.HasPrefix(cn, "internal/crypto.AuthenticateTokenV2[") {
+					return false
+				}
+				return len(s.Call.Common().Args) > 0 && isOrigin(core.Unwrap(s.Call.Common().Args[0]))
+			}},
+		}
+		core.CheckSuccessFn(p, r7, fn, core.SuccessRule{ResultIdx: -1, MinReturns: 1, Guards: gs,
+			Derived: []core.Derived{{Name: "chain-authenticated-to-the-root", Alts: [][]string{{"no-origin"}, {"origin-authenticated-by-the-same-check"}}}}, Need: []string{"chain-authenticated-to-the-root"}})
+	}
+	if nInst == 0 {
+		r.Fatalf("%s: no instantiation of AuthenticateTokenV2 found", r7.ID())
 	}
 }
